@@ -46,6 +46,8 @@ type Options struct {
 	LeadHTML []byte
 	// NoHTML disables close tags / inline HTML / <?= inside the program.
 	NoHTML bool
+	// NoDeep disables deep-nest programs (deep.go).
+	NoDeep bool
 	// NoHalt disables __halt_compiler.
 	NoHalt bool
 	// Exclusions for open known findings (counted by the caller through Excl).
@@ -66,9 +68,10 @@ type Options struct {
 
 // Gen is the generation context.
 type Gen struct {
-	T     *rapid.T
-	O     Options
-	depth int
+	T         *rapid.T
+	O         Options
+	depth     int
+	deepClass bool // deep.go: the nest under construction already contains a class
 	// gap rules for the gap *before* a token
 	gaps map[*token.Token]GapKind
 	// Excl counts constructs skipped because of an exclusion option.
